@@ -198,6 +198,7 @@ struct Run {
   bool regenerate = true;
   bool regenStmt = false;
   int regenerations = 0;
+  int keepGoing = -1;   // -k N (-1: not passed, the default of 1 applies; 0: never stop)
   int buildNo = 0;
   std::map<std::string, std::string> failFlags;
   std::map<std::string, Rec> recs;
@@ -380,6 +381,7 @@ struct Run {
     useDb = cfg->getb("db", true);
     regenerate = cfg->getb("regenerate", true);
     regenStmt = regenerate && cfg->getb("regen_stmt", false);
+    keepGoing = (int)cfg->getn("keep_going", -1);
     if (const Json* m = plan.find("manifest")) man = Manifest::fromJson(*m);
     man.regenStmt = regenStmt;
     simfs::fs().mkdirs(kWork);
@@ -501,6 +503,10 @@ struct Run {
         realProducers(i, &ps, &viaPhony);
         for (auto* p : ps) ordFail = or3(ordFail, pFail[p->name]);
       }
+      // Outside the default -k 1 a failure does not cancel the build, and llbuild only *waits* for order-only inputs: a
+      // command whose order-only input failed then runs (ninja would not run it).  -k is not among the configurations the
+      // property quantifies over, so this is counted and not judged.
+      if (keepGoing >= 0 && ordFail != N) ordFail = M;
       // update-if-newer: all that decides for a generator statement nothing is remembered about
       auto olderThanInputs = [&]() {
         uint64_t newest = 0;
@@ -607,6 +613,10 @@ struct Run {
     std::vector<std::string> args = {"-C", kWork, "--jobs", std::to_string(jobs)};
     if (!useDb) args.push_back("--no-db");
     if (!regenerate) args.push_back("--no-regenerate");
+    if (keepGoing >= 0) {
+      args.push_back("-k");
+      args.push_back(std::to_string(keepGoing));
+    }
     for (auto& t : targets) args.push_back(t);
     int rc;
     {
@@ -650,11 +660,20 @@ struct Run {
         grew = false;
         for (auto& s : man.stmts) {
           if (tainted.count(s.name)) continue;
-          for (auto* lst : {&s.explicitIns, &s.implicitIns, &s.orderOnly})
+          for (auto* lst : {&s.explicitIns, &s.implicitIns, &s.orderOnly}) {
+            if (lst == &s.orderOnly && keepGoing >= 0) {
+              // (see above: observed, not judged)
+              for (auto& i : *lst) {
+                const Stmt* p = man.producer(i);
+                if (p && tainted.count(p->name) && ran.count(s.name)) res.counters["observed_order_only_dependent_ran_after_a_failure_under_-k"]++;
+              }
+              continue;
+            }
             for (auto& i : *lst) {
               const Stmt* p = man.producer(i);
               if (p && tainted.count(p->name) && tainted.insert(s.name).second) grew = true;
             }
+          }
         }
       }
       for (auto& t : tainted)
@@ -815,6 +834,10 @@ public:
     bool regen = rng.chance(600);
     cfg.setb("regenerate", regen);
     cfg.setb("regen_stmt", regen && rng.chance(400));
+    // -k N is not generated: the property quantifies over job counts and the database, not over failure tolerance, and with
+    // N != 1 llbuild's driver runs dependents of a failed command in two ways ninja does not (DESIGN 4 C18, "Observed
+    // outside the quantifier").  The executor still honours "keep_going" in a hand-written plan.
+    cfg.set("keep_going", (int64_t)-1);
     cfg.set("policy", (int64_t)rng.below(3));
     static const int sticky[] = {500, 900, 990};
     cfg.set("sticky", sticky[rng.below(3)]);
